@@ -32,6 +32,71 @@ pub fn emit_bridge_lock_deposit<S: StateWrite>(mut state: S, bridge_address: Add
 }
 '''
 
+PRELUDE += r'''
+// ---- packet handler plumbing --------------------------------------------------------------------------
+/// cnidarium::StateDelta over the single symbolic store: writes go to the store; dropping the delta without
+/// `apply` restores the store to the snapshot taken at `new` (nothing is published); `apply` publishes and
+/// hands back the events recorded inside the delta (they are NOT recorded in the parent by cnidarium).
+pub struct StateDelta<S> { parent: Option<S>, snap_slots: [Option<Slot>; CAP], snap_n: usize, snap_wu: bool, snap_dep: [Option<Deposit>; DCAP], snap_nd: usize, snap_ev: u32, snap_dev: u32 }
+impl<S: StateRead> StateDelta<S> {
+    pub fn new(parent: S) -> Self {
+        let st = store();
+        StateDelta { parent: Some(parent), snap_slots: st.slots, snap_n: st.n, snap_wu: st.wrote_undeclared, snap_dep: st.deposits.clone(), snap_nd: st.n_deposits, snap_ev: st.events, snap_dev: st.deposit_events }
+    }
+    pub fn apply(mut self) -> (S, Vec<DeltaEvent>) {
+        let st = store();
+        let n = st.events - self.snap_ev;
+        st.events = self.snap_ev;              // events travel in the return value
+        unsafe { DELTAS_APPLIED += 1; }
+        let mut evs = Vec::new();
+        let mut i = 0; while i < n { evs.push(DeltaEvent); i += 1; }
+        (self.parent.take().unwrap(), evs)
+    }
+}
+impl<S> Drop for StateDelta<S> {
+    fn drop(&mut self) {
+        if self.parent.is_some() {
+            let st = store();
+            st.slots = self.snap_slots; st.n = self.snap_n; st.wrote_undeclared = self.snap_wu; st.deposits = self.snap_dep.clone(); st.n_deposits = self.snap_nd;
+            st.events = self.snap_ev; st.deposit_events = self.snap_dev;
+        }
+    }
+}
+impl<S: StateRead> StateRead for StateDelta<S> {}
+impl<S: StateRead> StateWrite for StateDelta<S> {}
+pub struct DeltaEvent;
+pub static mut DELTAS_APPLIED: u32 = 0;
+pub static mut ACK_WRITTEN: Option<bool> = None;     // Some(true) = success ack, Some(false) = error ack
+pub enum TokenTransferAcknowledgement { Success, Error(String) }
+impl TokenTransferAcknowledgement { pub fn success() -> Self { TokenTransferAcknowledgement::Success } }
+pub struct AckBytes(pub bool);
+impl From<TokenTransferAcknowledgement> for Vec<u8> { fn from(a: TokenTransferAcknowledgement) -> Vec<u8> { match a { TokenTransferAcknowledgement::Success => vec![1], TokenTransferAcknowledgement::Error(_) => vec![0] } } }
+pub mod penumbra_ibc { pub mod component { pub mod packet {
+    pub trait WriteAcknowledgement: crate::StateWrite {
+        fn write_acknowledgement(&mut self, _p: &crate::Packet, ack: &Vec<u8>) -> crate::anyhow::Result<()> { unsafe { crate::ACK_WRITTEN = Some(ack[0] == 1); } Ok(()) }
+    }
+    impl<T: crate::StateWrite + ?Sized> WriteAcknowledgement for T {}
+} } }
+pub mod anyhow {
+    #[derive(Debug)] pub struct Error;
+    impl Error { pub fn context<C>(self, _c: C) -> Self { self } }
+    pub type Result<T> = core::result::Result<T, Error>;
+}
+pub trait AnyhowContext<T> { fn context<C>(self, c: C) -> anyhow::Result<T>; }
+impl<T> AnyhowContext<T> for anyhow::Result<T> { fn context<C>(self, _c: C) -> anyhow::Result<T> { self } }
+pub fn eyre_to_anyhow(_e: eyre::Report) -> anyhow::Error { anyhow::Error }
+impl std::fmt::Display for eyre::Report { fn fmt(&self, _f: &mut std::fmt::Formatter<'_>) -> std::fmt::Result { Ok(()) } }
+impl AsRef<dyn std::error::Error> for eyre::Report { fn as_ref(&self) -> &(dyn std::error::Error + 'static) { &VX_ERR } }
+#[derive(Debug)] pub struct VxErr; impl std::fmt::Display for VxErr { fn fmt(&self, _f: &mut std::fmt::Formatter<'_>) -> std::fmt::Result { Ok(()) } } impl std::error::Error for VxErr {}
+pub static VX_ERR: VxErr = VxErr;
+macro_rules! vx_tracing_warn { ($($t:tt)*) => {{}} }
+pub mod tracing { pub(crate) use vx_tracing_warn as warn; }
+pub struct IbcAcknowledgementFailureChange; impl IbcAcknowledgementFailureChange { pub const NAME: u8 = 15; }
+pub struct MsgRecvPacket { pub packet: Packet }
+pub struct Ics20Transfer;
+pub trait AppHandlerExecute { fn recv_packet_execute<S: StateWrite>(state: S, msg: &MsgRecvPacket) -> anyhow::Result<()>; }
+'''
+
 HARNESS = r'''
     use crate::ibc_real::StateWriteExt as _;
 
@@ -114,12 +179,14 @@ HARNESS = r'''
         }
     }
 
-    // ---- F6: a receive that cannot be fully applied must leave no balance change, no deposit and no deposit event ----
+    // ---- recv_packet_execute: an incoming packet that cannot be fully applied is acknowledged with an error and changes nothing ----
     #[kani::proof]
     #[kani::unwind(10)]
     #[kani::stub(alloc::fmt::format, crate::vx_stub_format)]
-    fn receive_tokens_failure_has_no_side_effects() {
+    fn recv_packet_failure_has_no_side_effects() {
         let (packet, data) = setup_receive();
+        unsafe { DELTAS_APPLIED = 0; ACK_WRITTEN = None; }
+        store().declare(Key::Upgrade(IbcAcknowledgementFailureChange::NAME));
         // declare every key the call may touch so that "nothing written" is meaningful
         if let (Some(_), Some(recipient), Some(mut asset)) = (packet.data, data.receiver.0, data.denom.0) {
             let is_source = asset.seg[0] == Some((packet.port_on_a.0, packet.chan_on_a.0));
@@ -129,13 +196,25 @@ HARNESS = r'''
             store().declare(Key::Upgrade(Ics20TransferActionChange::NAME)); store().declare(Key::FeeAssetAllowed(x));
             store().declare(Key::BridgeRollupId(recipient.bytes)); store().declare(Key::BridgeDisabled(recipient.bytes)); store().declare(Key::IbcAsset(x));
         }
-        let r = receive_tokens(State, &packet);
-        if r.is_err() {
-            // recv_packet_execute turns this error into an error acknowledgement ON THE SAME STATE
-            assert!(store().nothing_written());
-            assert!(store().n_deposits == 0 && store().deposit_events == 0);
+        let r = <Ics20Transfer as AppHandlerExecute>::recv_packet_execute(State, &MsgRecvPacket { packet });
+        if r.is_ok() {
+            match unsafe { ACK_WRITTEN } {
+                Some(false) => {
+                    // error acknowledgement: no balance, escrow, asset registration, deposit or event survives
+                    assert!(store().nothing_written());
+                    assert!(store().n_deposits == 0 && store().deposit_events == 0 && store().events == 0);
+                    assert!(unsafe { DELTAS_APPLIED } == 0);
+                }
+                Some(true) => {
+                    assert!(unsafe { DELTAS_APPLIED } == 1);
+                    // the events recorded by the transfer are re-recorded in the outer state (a bridge deposit is not lost)
+                    assert!(store().events == store().deposit_events && store().deposit_events as usize == store().n_deposits);
+                }
+                None => assert!(false),    // every handled packet is acknowledged
+            }
         }
     }
+
     #[kani::proof]
     #[kani::unwind(10)]
     #[kani::stub(alloc::fmt::format, crate::vx_stub_format)]
@@ -149,7 +228,7 @@ UNIT = dict(
     name="c18_ics20", mode="K", properties=["C18", "C04"],
     shim_files=["shims/common.rs", "shims/seq.rs"],
     prelude=PRELUDE,
-    use="use crate::accounts::*;\nuse crate::ibc_real::StateWriteExt as _;",
+    use="use crate::accounts::*;\nuse crate::ibc_real::StateWriteExt as _;\nuse crate::AnyhowContext as _;",
     items=[
         dict(file=ACC, path="struct InsufficientFunds", module="accounts"),
         dict(file=ACC, path="trait StateWriteExt/fn increase_balance", module="accounts"),
@@ -161,6 +240,7 @@ UNIT = dict(
         dict(file=ICS, path="fn is_refund_source_zone"),
         dict(file=ICS, path="fn is_post_blackburn"),
         dict(file=ICS, path="fn refund_tokens_to_sequencer_address"),
+        dict(file=ICS, path="impl AppHandlerExecute for Ics20Transfer/fn recv_packet_execute"),
         dict(file=ICS, path="fn receive_tokens",
              rewrites=[dict(rule="regex", id="R7.denom_prefix_format",
                             old=r"asset = format!\((?:.|\n)*?\)\s*\.parse\(\)\s*\.expect\((?:.|\n)*?\);",
@@ -173,10 +253,10 @@ UNIT = dict(
         dict(name="refund_to_sequencer_address_contract", obligation="ics20::refund_tokens_to_sequencer_address::ensures#escrow-released-exactly-iff-source-zone+credit-exact+frame"),
         dict(name="receive_tokens_success_accounting", obligation="ics20::receive_tokens::ensures#Ok=>escrow-and-credit-exact+deposit-iff-bridge+frame"),
         dict(name="canary_receive_tokens_ok_reachable", expect="fail"),
-        dict(name="receive_tokens_failure_has_no_side_effects", finding="F6", only_for=["C18", "C04"], obligation="ics20::receive_tokens::ensures#Err=>no-balance-change-no-deposit-no-event",
-             what="an incoming ICS-20 transfer to a bridge account caches the deposit (and records its event) before the escrow debit and the credit; if those fail (e.g. insufficient escrow, balance overflow) recv_packet_execute writes an error acknowledgement on the same state and the deposit stays although no funds moved"),
+        dict(name="recv_packet_failure_has_no_side_effects", obligation="Ics20Transfer::recv_packet_execute::ensures#error-ack=>no-balance-change-no-deposit-no-event;success=>delta-applied-once+events-re-recorded",
+             label="an incoming packet that cannot be fully applied is acknowledged with an error and changes no balance, registers no deposit and emits no deposit event"),
     ],
     assumptions=["A-store typed accessors over the symbolic store; packet data is carried pre-parsed (serde_json, bech32 and denom parsing trusted); emit_bridge_lock_deposit is an arbitrary-outcome stand-in that caches exactly one deposit on success",
                  "R7: the `format!(\"{port}/{channel}/{asset}\").parse().expect(..)` expression is replaced by TracePrefixed::vx_with_prefix (same meaning on the structural denom model; denoms have at most 2 trace segments)",
-                 "Ics20Withdrawal::execute (the sending side of the escrow equation) and refund_tokens' rollup branch are not under contract in this build"],
+                 "cnidarium StateDelta is a snapshot/restore stand-in over the single symbolic store (apply publishes and returns the events recorded inside the delta; drop restores)", "refund_tokens' rollup branch and the timeout/acknowledge handlers are not under contract"],
 )
